@@ -33,6 +33,7 @@ From Coq Require Import List ZArith Bool String Permutation.
 From Verif Require Import Base.Prelude Base.Str Base.Float Base.GoVal Schema.Regex Schema.Units
   Schema.Syntax Schema.Ops Schema.Link Schema.Compat Schema.Wf Schema.Total
   Proofs.Compat Proofs.Link Proofs.Link2 Proofs.Link2Inline Proofs.Link2Term.
+From Verif Require Import Base.XReflect Schema.XSyntax Schema.XOps Proofs.XInline.
 Import ListNotations.
 Open Scope string_scope.
 
@@ -194,6 +195,34 @@ Theorem C14_inline_refs_equiv_back : forall words pu e s n stop, refs_to_objects
 Proof. exact inline_refs_equiv_back. Qed.
 Print Assumptions C14_inline_refs_equiv_back.
 
+(* ================= (3b) struct-mapped parents ================= *)
+
+(* Only a STRUCT-MAPPED parent fills in the defaults of an absent non-pointer member itself (schema/object.go
+   applySubObjectDefaultValues = Schema/XOps.v xsub_defaults, the pass xunser runs over the properties that were not
+   supplied).  That pass does not tell a member held by reference from the same member held by value: for one
+   property (the reference and the object it denotes in the environment the parent is unserialized in) ... *)
+Theorem C14_struct_subdefaults_ref_inline : forall fuel e pid p r id d o,
+  p_type p = XRef id "" d ->
+  alookup id (xe_self e) = Some o -> x_is_object o ->
+  xsub_defaults fuel e pid p r = xsub_defaults fuel e pid (xwith_type p o) r.
+Proof. exact xsub_defaults_ref_inline. Qed.
+Print Assumptions C14_struct_subdefaults_ref_inline.
+
+(* ... and for the whole pass over a parent's property list in which any number of member references have been
+   replaced by their objects (xprop_inl), whatever was supplied (r0) and whatever the raw map holds so far.
+   Partial with respect to the full statement "xunser / xvalidate / xserialize of a struct-mapped scope = of its
+   inlined partner at every depth" (the analogue of C14_inline_equiv_* for Schema/XOps.v): this is the one step
+   the struct-mapped path ADDS to the map-based operations, for which C14_inline_equiv_* is proved; the full
+   composition is checked by the family c14xinline (direct predicate: reference form == inlined form). *)
+Theorem C14_struct_subdefaults_pass_inline_partial : forall fuel e (r0 : raw) props props' acc,
+  Forall2 (fun np np' => fst np = fst np' /\ xprop_inl e (snd np) (snd np')) props props' ->
+  fold_left (fun acc0 (np : string * xproperty) =>
+               a <- acc0 ;; if amem (fst np) r0 then Ok a else xsub_defaults fuel e (fst np) (snd np) a) props acc
+  = fold_left (fun acc0 (np : string * xproperty) =>
+               a <- acc0 ;; if amem (fst np) r0 then Ok a else xsub_defaults fuel e (fst np) (snd np) a) props' acc.
+Proof. exact xsub_defaults_pass_inline. Qed.
+Print Assumptions C14_struct_subdefaults_pass_inline_partial.
+
 (* ================= (4) recursive graphs ================= *)
 
 (* self- and mutually-referential objects work on all finite inputs: an explicit fuel suffices,
@@ -320,3 +349,11 @@ Example C14_recursive_example :
   is_ok (unser [] pu (fuel_bound 5 e c14_rec (c14_chain 30)) e c14_rec (c14_chain 30)) = true /\
   no_inline_cycle e c15_rec_scope = false.
 Proof. vm_compute. repeat split; reflexivity. Qed.
+
+(* struct-mapped parent XNested{in: ref XI}, XI{a default 5}: the hypotheses hold, and the absent member is filled in -
+   by reference and by value alike *)
+Example C14_struct_subdefaults_example :
+  xprop_inl xi_env xi_prop (xwith_type xi_prop xi_obj) /\
+  xsub_defaults 5 xi_env "in" xi_prop [] = Ok [("in", raw_to_val [("a", VInt (TInt I64) 5%Z)])] /\
+  xsub_defaults 5 xi_env "in" (xwith_type xi_prop xi_obj) [] = Ok [("in", raw_to_val [("a", VInt (TInt I64) 5%Z)])].
+Proof. exact xsub_defaults_ref_inline_example. Qed.
